@@ -74,12 +74,17 @@ class CancelOnShutdownExecutor(CanCustomizeBind, Executor):
         Note that there is no guarantee that the cancel will succeed, and only a single
         attempt is made to cancel any future.
         """
+        # Flip the shutdown flag before taking our own lock: submit() holds the
+        # shutdown gate while it takes self._lock, so taking them in the opposite
+        # order here could deadlock against a concurrent submit().
+        # Every future accepted by submit() was added to self._futures before the
+        # gate was released, so the snapshot below cannot miss any of them.
+        if not self._shutdown():
+            return
+        metrics.EXEC_INPROGRESS.labels(
+            type="cancel_on_shutdown", executor=self._name
+        ).dec()
         with self._lock:
-            if not self._shutdown():
-                return
-            metrics.EXEC_INPROGRESS.labels(
-                type="cancel_on_shutdown", executor=self._name
-            ).dec()
             futures = self._futures.copy()
 
         for f in futures:
